@@ -103,9 +103,31 @@ pub unsafe extern "C" fn probe(ptr: *const Tt, len: usize, digest: *mut u8, mode
     d[32] = flags;
     if mode == 2 { return 0; }
     let wn = match w { Some(n) => n, None => return 0 };
+    // the known `|` weakness of the scanner needs a second `|` to close the pair and a comma in between: without that pattern in
+    // the token trees a disagreement is not attributed to it
+    if !pipe_comma_pipe(tts) { flags &= !oracle::F_BINARY_PIPE; }
     let code = compare(g, wn, &got, &want);
     // a disagreement carries the oracle's feature flags of the accepted parse in bits 8.. (used to name known classes)
     if code != 0 { code | (flags as u32) << 8 } else { 0 }
+}
+
+/// is there a `|` punct, later a `,`, later another `|` punct (top level: groups are single token trees)?
+fn pipe_comma_pipe(tts: &[Tt]) -> bool {
+    let mut state = 0u8;
+    let mut i = 0;
+    while i < tts.len() {
+        let t = &tts[i];
+        if t.kind == K_PUNCT {
+            if t.ch == b'|' {
+                if state == 2 { return true; }
+                if state == 0 { state = 1; }
+            } else if t.ch == b',' && state == 1 {
+                state = 2;
+            }
+        }
+        i += 1;
+    }
+    false
 }
 
 fn compare(g: Option<usize>, wn: usize, got: &[Arg; MAXARGS], want: &[oracle::OArg; MAXARGS]) -> u32 {
